@@ -2,7 +2,7 @@
     channels to [-1, 1], then one channel = mean of left and right; two or more = left, right
     and silence on the extra channels. *)
 From Coq Require Import ZArith List Bool.
-From KV Require Import Base.IEEE.
+From KV Require Import Base.IEEE Base.Outcome.
 Import ListNotations.
 Local Open Scope Z_scope.
 
@@ -39,3 +39,68 @@ Definition render (n b : nat) (bus : list (f32 * f32)) : list f32 :=
 
 (** a sample is a finite number in [-1, 1] *)
 Definition unit32 (x : f32) : bool := le32 m1_32 x && le32 x p1_32.
+
+(** * Audio-thread steps of one device callback and their heap effect
+
+    [Renderer::on_start_processing] (mixer, clocks, listeners, modulators: commands are read, finished
+    resources are moved to the unused-resource queues, queued resources are moved into the arenas)
+    followed by [Renderer::process]: one [process_chunk] per chunk of at most [b] frames, each
+    being modulators -> clocks -> listeners -> mixer -> output stage -> [temp_buffer.fill(ZERO)].
+    The annotation [allocs] / [frees] is the model's prediction for the counting allocator of the
+    harness (armed on the audio thread for the duration of the callback): every transcribed
+    statement works in buffers allocated when the resource was built (Renderer::new, Mixer::new,
+    TrackBuilder::build, Delay::init) and hands removed resources to a pre-allocated ring buffer;
+    it is an annotation justified by inspection, validated per callback by the harness, not
+    derived from Rust's semantics. *)
+Inductive astep :=
+| AStartMixer | AStartClocks | AStartListeners | AStartModulators
+| AModulators (frames : nat) | AClocks (frames : nat) | AListeners (frames : nat)
+| AMixer (frames : nat) | AOutStage (frames : nat) | AClearBus.
+
+Definition allocs (s : astep) : nat := 0%nat.
+Definition frees (s : astep) : nat := 0%nat.
+
+Definition start_steps : list astep := [AStartMixer; AStartClocks; AStartListeners; AStartModulators].
+Definition chunk_steps (m : nat) : list astep :=
+  [AModulators m; AClocks m; AListeners m; AMixer m; AOutStage m; AClearBus].
+(** chunk lengths of a device buffer of [frames] frames: `out.chunks_mut(b * channels)` *)
+Definition chunk_lengths (b frames : nat) : list nat := map (@length unit) (chunks frames b (repeat tt frames)).
+Definition callback_steps (b frames : nat) : list astep :=
+  start_steps ++ flat_map chunk_steps (chunk_lengths b frames).
+
+Definition heap_allocs (l : list astep) : nat := fold_right (fun s a => (allocs s + a)%nat) 0%nat l.
+Definition heap_frees (l : list astep) : nat := fold_right (fun s a => (frees s + a)%nat) 0%nat l.
+(** how often the mixer's [on_start_processing] runs, and the lengths the mixer is asked for *)
+Definition starts_of (l : list astep) : nat := length (filter (fun s => match s with AStartMixer => true | _ => false end) l).
+Definition mixer_lengths (l : list astep) : list nat :=
+  flat_map (fun s => match s with AMixer m => [m] | _ => [] end) l.
+
+(** * The carry loops: `while x >= 1.0 { x -= 1.0; step() }` in binary64
+    (static_sound/sound.rs and streaming/sound.rs [fractional_position], clock.rs [tick_timer]);
+    the result is the number of iterations and what is left of [x] *)
+Definition one64 : f64 := Z64 1.
+Fixpoint sub1_loop (fuel : nat) (x : f64) : outcome (nat * f64) :=
+  if le64 one64 x then
+    match fuel with
+    | O => Hang
+    | S f => match sub1_loop f (sub64 x one64) with
+             | Ok (n, r) => Ok (S n, r)
+             | Panic k => Panic k
+             | Hang => Hang
+             end
+    end
+  else Ok (O, x).
+
+(** * Gain stages in binary32 *)
+(** sound: `(resampler_out * fade_volume * volume).panned(panning)`, one side; [gl] is the panning
+    gain `(1 - mix).sqrt()` or `mix.sqrt()`, and the result is scaled by SQRT_2 *)
+Definition sqrt2_32 : f32 := sqrt32 (Z32 2).
+Definition sound_gain (x fade vol : f32) : f32 := mul32 (mul32 x fade) vol.
+Definition panned_side (x g : f32) : f32 := mul32 (mul32 x g) sqrt2_32.
+(** track / main / send: `*frame *= volume * fade_volume`, `*frame *= volume` *)
+Definition track_gain (x vol fade : f32) : f32 := mul32 x (mul32 vol fade).
+Definition volume_gain (x vol : f32) : f32 := mul32 x vol.
+(** effects: `wet * mix.sqrt() + dry * (1.0 - mix).sqrt()` with `mix.clamp(0.0, 1.0)` *)
+Definition blend32 (wet dry mix : f32) : f32 :=
+  let m := clamp32 mix zero32 p1_32 in
+  add32 (mul32 wet (sqrt32 m)) (mul32 dry (sqrt32 (sub32 p1_32 m))).
